@@ -202,3 +202,253 @@ fn app_marker_type_known() {
     assert!(am.ty <= 3, "[C01,C17] APPn writer (reconstruct.rs:699-757) has `_ => unreachable!()` for ty > 3: the parser must not return it");
     kani::cover!(am.ty == 3);
 }
+
+// ================================================================================================
+// PART 2: ScanInfo / ScanComponentInfo / ScanMoreInfo bundles
+// ================================================================================================
+// jbrd syntax (ISO/IEC 18181-2 Annex "JPEG bitstream reconstruction data"; libjxl lib/jxl/jpeg/jpeg_data.cc
+// JPEGData::VisitFields), bit fields in 18181-1 notation:
+//   scan_info[i]:       num_comps = u(2) + 1; Ss = u(6); Se = u(6); Al = u(4); Ah = u(4);
+//                       num_comps x { comp_idx = u(2); ac_tbl_idx = u(2); dc_tbl_idx = u(2) };
+//                       last_needed_pass = U32(0, 1, 2, 3 + u(3))
+//   scan_more_info[i]:  num_reset_points = U32(0, 1 + u(2), 4 + u(4), 20 + u(16));
+//                       per reset point: delta = U32(0, 1 + u(3), 9 + u(5), 41 + u(28));
+//                       num_extra_zero_runs = U32(0, 1 + u(2), 4 + u(4), 20 + u(16));
+//                       per entry: num_runs = U32(1, 2 + u(2), 5 + u(4), 20 + u(8)); delta = U32(0, 1 + u(3), 9 + u(5), 41 + u(28))
+//   Both lists are delta coded block indices (libjxl: `last_block_idx = -1; block_idx = delta + last_block_idx + 1`):
+//                       index_0 = delta_0,   index_k = index_(k-1) + delta_k + 1   (strictly increasing),
+//   an index above the block-count limit 3 * 2^26 is a stream error.
+
+/// the first 16 bytes of the bundle as one little-endian word: bit k of the bit stream is bit k of the word
+fn word16(data: &[u8; 16]) -> u128 {
+    u128::from_le_bytes(*data)
+}
+
+/// u(n), n <= 32, at bit position *pos of a stream of `nbits` bits; None = the stream ends before
+fn su(w: u128, nbits: usize, pos: &mut usize, n: usize) -> Option<u32> {
+    if *pos + n > nbits {
+        return None;
+    }
+    let v = ((w >> *pos) & ((1u128 << n) - 1)) as u32;
+    *pos += n;
+    Some(v)
+}
+
+/// U32(d0, d1, d2, d3), each distribution given as (offset, bits)
+fn su32(w: u128, nbits: usize, pos: &mut usize, d: [(u32, usize); 4]) -> Option<u32> {
+    let sel = su(w, nbits, pos, 2)? as usize;
+    let (off, n) = d[sel];
+    Some(off + su(w, nbits, pos, n)?)
+}
+
+const D_COUNT: [(u32, usize); 4] = [(0, 0), (1, 2), (4, 4), (20, 16)];
+const D_DELTA: [(u32, usize); 4] = [(0, 0), (1, 3), (9, 5), (41, 28)];
+const D_RUNS: [(u32, usize); 4] = [(1, 0), (2, 2), (5, 4), (20, 8)];
+const D_PASS: [(u32, usize); 4] = [(0, 0), (1, 0), (2, 0), (3, 3)];
+const MAX_BLOCK_IDX: u32 = 3 << 26;
+
+fn is_validation_failed<T>(r: &Result<T, jxl_bitstream::Error>) -> bool {
+    matches!(r, Err(jxl_bitstream::Error::ValidationFailed(_)))
+}
+
+// ------------------------------------------------------------------------------------------------
+// ScanInfo::parse (with its ScanComponentInfo entries)
+// ------------------------------------------------------------------------------------------------
+#[kani::proof]
+#[kani::unwind(9)]
+fn scan_info_parse_contract() {
+    let data: [u8; 16] = kani::any();
+    let len: usize = kani::any();
+    kani::assume(len <= 7); // the longest bundle has 2 + 6 + 6 + 4 + 4 + 4 * 6 + 5 = 51 bits
+    let w = word16(&data);
+    let nbits = len * 8;
+    let mut bs = Bitstream::new(&data[..len]);
+    let r = ScanInfo::parse(&mut bs, ());
+    // spec
+    let mut pos = 0usize;
+    let spec = (|| {
+        let n = su(w, nbits, &mut pos, 2)? + 1;
+        let ss = su(w, nbits, &mut pos, 6)?;
+        let se = su(w, nbits, &mut pos, 6)?;
+        let al = su(w, nbits, &mut pos, 4)?;
+        let ah = su(w, nbits, &mut pos, 4)?;
+        let mut comps = [(0u32, 0u32, 0u32); 4];
+        let mut i = 0;
+        while i < 4 {
+            if (i as u32) < n {
+                comps[i] = (su(w, nbits, &mut pos, 2)?, su(w, nbits, &mut pos, 2)?, su(w, nbits, &mut pos, 2)?);
+            }
+            i += 1;
+        }
+        let lnp = su32(w, nbits, &mut pos, D_PASS)?;
+        Some((n, ss, se, al, ah, comps, lnp))
+    })();
+    match (&r, spec) {
+        (Ok(si), Some((n, ss, se, al, ah, comps, lnp))) => {
+            assert!(si.component_info.len() == n as usize && si.num_comps() as u32 == n && (1..=4).contains(&n), "[C17,C01] num_comps = u(2) + 1 components");
+            assert!(si.ss as u32 == ss && si.se as u32 == se && si.al as u32 == al && si.ah as u32 == ah, "[C17] Ss = u(6), Se = u(6), Al = u(4), Ah = u(4) in this order");
+            assert!(si.ss <= 63 && si.se <= 63 && si.al <= 15 && si.ah <= 15, "[C17,C01] field ranges (the SOS writer packs (Ah << 4) | Al into one byte, reconstruct.rs:545)");
+            let k: usize = kani::any();
+            kani::assume(k < n as usize);
+            let c = &si.component_info[k];
+            assert!((c.comp_idx as u32, c.ac_tbl_idx as u32, c.dc_tbl_idx as u32) == comps[k], "[C17] component k: comp_idx = u(2), ac_tbl_idx = u(2), dc_tbl_idx = u(2)");
+            assert!(c.ac_tbl_idx <= 3 && c.dc_tbl_idx <= 3, "[C01,C17] table selectors index the 4-entry dc_tables / ac_tables (scan.rs:431-436)");
+            assert!(si.last_needed_pass as u32 == lnp && lnp <= 10, "[C17] last_needed_pass = U32(0, 1, 2, 3 + u(3))");
+            assert!(bs.num_read_bits() == pos, "[C17] exactly the bundle's bits are consumed");
+        }
+        (Err(e), None) => assert!(e.unexpected_eof(), "[C01,C17] the only failure is running out of input"),
+        _ => assert!(false, "[C17,C01] parse succeeds exactly when the bundle is complete"),
+    }
+    kani::cover!(matches!(&r, Ok(si) if si.component_info.len() == 4 && si.last_needed_pass == 10));
+    kani::cover!(matches!(&r, Ok(si) if si.component_info.len() == 1 && si.ss == 63 && si.ah == 15));
+    kani::cover!(r.is_err() && len == 6);
+    std::mem::forget(r);
+}
+
+// ------------------------------------------------------------------------------------------------
+// consumer preconditions on what ScanInfo::parse returns (the consumers need a Frame and cannot be driven here):
+//  * spectral range: process_scan slices DCT8_NATURAL_ORDER[Ss.max(1) .. Se + 1] and reserves (Se + 1 - Ss.max(1)) entries
+//    (scan.rs:400-401, 479-480): needs Ss.max(1) <= Se + 1, i.e. Ss <= Se or the DC-only scan Ss = Se = 0 (T.81 B.2.3:
+//    Ss <= Se). Otherwise: u8 subtraction overflow (checked build) / slice index starts after its end (any build).
+//  * component index: the SOS writer indexes header.components (1..=4 entries), a [u32; 3] sampling table
+//    (reconstruct.rs:537, 556, 560) and process_scan a 3-entry channel permutation (scan.rs:443) with comp_idx.
+// ------------------------------------------------------------------------------------------------
+#[kani::proof]
+#[kani::unwind(9)]
+fn scan_info_spectral_range_pre() {
+    let data: [u8; 7] = kani::any();
+    let mut bs = Bitstream::new(&data);
+    let r = ScanInfo::parse(&mut bs, ());
+    if let Ok(si) = &r {
+        assert!(si.ss.max(1) <= si.se + 1, "[C01,C17] process_scan (scan.rs:400-401,479-480) slices DCT8_NATURAL_ORDER[Ss.max(1)..Se + 1]: the parser must not return Ss > Se + 1");
+        kani::cover!(si.ss == 0 && si.se == 0);
+        kani::cover!(si.ss == 1 && si.se == 63);
+    }
+    std::mem::forget(r);
+}
+
+#[kani::proof]
+#[kani::unwind(9)]
+fn scan_info_comp_idx_pre() {
+    let data: [u8; 7] = kani::any();
+    let mut bs = Bitstream::new(&data);
+    let r = ScanInfo::parse(&mut bs, ());
+    if let Ok(si) = &r {
+        let k: usize = kani::any();
+        kani::assume(k < si.component_info.len());
+        assert!(si.component_info[k].comp_idx <= 2, "[C01,C17] the SOS writer and process_scan index 3-entry tables with comp_idx (reconstruct.rs:556,560; scan.rs:443): the parser must not return comp_idx 3");
+        kani::cover!(si.component_info.len() == 4 && k == 3);
+    }
+    std::mem::forget(r);
+}
+
+// ------------------------------------------------------------------------------------------------
+// ScanMoreInfo::parse: both delta-coded lists
+// ------------------------------------------------------------------------------------------------
+/// spec of the bundle on a 128-bit stream: (number of reset points, their indices, number of extra-zero-run entries,
+/// their (index, num_runs), bits used, some index above the limit); None = incomplete or more entries than RP / EZ
+fn spec_scan_more_info<const RP: usize, const EZ: usize>(w: u128) -> Option<(usize, [u32; RP], usize, [(u32, u32); EZ], usize, bool)> {
+    let mut pos = 0usize;
+    let mut too_large = false;
+    let nrp = su32(w, 128, &mut pos, D_COUNT)? as usize;
+    if nrp > RP {
+        return None;
+    }
+    let mut rp = [0u32; RP];
+    let mut i = 0;
+    while i < RP {
+        if i < nrp && !too_large {
+            let delta = su32(w, 128, &mut pos, D_DELTA)?;
+            rp[i] = if i == 0 { delta } else { rp[i - 1] + delta + 1 };
+            too_large = rp[i] > MAX_BLOCK_IDX;
+        }
+        i += 1;
+    }
+    if too_large {
+        return Some((nrp, rp, 0, [(0, 0); EZ], pos, true));
+    }
+    let nez = su32(w, 128, &mut pos, D_COUNT)? as usize;
+    if nez > EZ {
+        return None;
+    }
+    let mut ez = [(0u32, 0u32); EZ];
+    let mut i = 0;
+    while i < EZ {
+        if i < nez && !too_large {
+            let runs = su32(w, 128, &mut pos, D_RUNS)?;
+            let delta = su32(w, 128, &mut pos, D_DELTA)?;
+            ez[i] = (if i == 0 { delta } else { ez[i - 1].0 + delta + 1 }, runs);
+            too_large = ez[i].0 > MAX_BLOCK_IDX;
+        }
+        i += 1;
+    }
+    Some((nrp, rp, nez, ez, pos, too_large))
+}
+
+// Models for the hash containers (HashSet<u32> / HashMap<u32, u32> with the default RandomState): the real
+// RandomState::new() asks the operating system for random keys (a foreign call Kani cannot execute) and SipHash over
+// symbolic keys makes every bucket position symbolic (CBMC ran out of memory at 14 GB on two insertions). The observable
+// behaviour of HashSet / HashMap (len, contains, get) does not depend on the hash VALUES -- any deterministic hasher gives
+// the same set / map -- so the obligations below run the real hashbrown table with fixed keys and a constant hash
+// (every key lands in the same probe sequence and is told apart by `==`, which is what decides membership).
+fn random_state_model() -> std::hash::RandomState {
+    // RandomState is two u64 keys
+    unsafe { std::mem::transmute::<[u64; 2], std::hash::RandomState>([0, 0]) }
+}
+
+fn hasher_write_model(_h: &mut std::hash::DefaultHasher, _msg: &[u8]) {}
+
+fn hasher_finish_model(_h: &std::hash::DefaultHasher) -> u64 {
+    0
+}
+
+fn check_scan_more_info<const RP: usize, const EZ: usize>() {
+    let data: [u8; 16] = kani::any();
+    let w = word16(&data);
+    // bounded: complete bundles with at most RP reset points and EZ extra-zero-run entries (they fit into 128 bits)
+    let Some((nrp, rp, nez, ez, used, too_large)) = spec_scan_more_info::<RP, EZ>(w) else { return };
+    let mut bs = Bitstream::new(&data);
+    let r = ScanMoreInfo::parse(&mut bs, ());
+    if too_large {
+        assert!(is_validation_failed(&r), "[C17,C01] a block index above 3 * 2^26 is rejected");
+    } else {
+        match &r {
+            Ok(smi) => {
+                assert!(smi.reset_points.len() == nrp, "[C17] one reset point per entry (indices are strictly increasing, hence distinct)");
+                assert!(smi.extra_zero_runs.len() == nez, "[C17] one extra-zero-run entry per entry");
+                let k: usize = kani::any();
+                if k < nrp {
+                    assert!(smi.reset_points.contains(&rp[k]), "[C17] reset point k is at block index_0 = delta_0, index_k = index_(k-1) + delta_k + 1");
+                }
+                if k < nez {
+                    assert!(smi.extra_zero_runs.get(&ez[k].0) == Some(&ez[k].1), "[C17] extra-zero-run entry k: block index_k (same delta coding) -> num_runs_k");
+                }
+                assert!(bs.num_read_bits() == used, "[C17] exactly the bundle's bits are consumed");
+            }
+            Err(_) => assert!(false, "[C17,C01] a complete bundle with indices within the limit parses"),
+        }
+    }
+    kani::cover!(r.is_ok() && nrp == RP && nez == EZ);
+    kani::cover!(r.is_ok() && nrp == RP && RP >= 2 && rp[RP - 1] == rp[0] + 1);
+    kani::cover!(r.is_ok() && nez == EZ && EZ >= 2 && ez[EZ - 1].0 == ez[0].0 + 1 && ez[0].1 == 275);
+    kani::cover!(too_large);
+    std::mem::forget(r);
+}
+
+#[kani::proof]
+#[kani::unwind(18)]
+#[kani::stub(std::hash::RandomState::new, random_state_model)]
+#[kani::stub(<std::hash::DefaultHasher as std::hash::Hasher>::write, hasher_write_model)]
+#[kani::stub(<std::hash::DefaultHasher as std::hash::Hasher>::finish, hasher_finish_model)]
+fn scan_more_info_parse_rp2_ez1() {
+    check_scan_more_info::<2, 1>();
+}
+
+#[kani::proof]
+#[kani::unwind(18)]
+#[kani::stub(std::hash::RandomState::new, random_state_model)]
+#[kani::stub(<std::hash::DefaultHasher as std::hash::Hasher>::write, hasher_write_model)]
+#[kani::stub(<std::hash::DefaultHasher as std::hash::Hasher>::finish, hasher_finish_model)]
+fn scan_more_info_parse_rp1_ez2() {
+    check_scan_more_info::<1, 2>();
+}
